@@ -19,6 +19,7 @@ static int toks(char *line, long *v, int max)
 int main(void)
 {
 	static char line[65536];
+	setvbuf(stdout, NULL, _IOLBF, 0);
 	static long v[8192];
 
 	while (fgets(line, sizeof(line), stdin)) {
